@@ -1,5 +1,5 @@
-// Hosts the *real* abasic-web/ts/main.ts (type annotations removed by a fixed list of
-// literal rewrites, each of which must apply exactly once) in a node `vm` context.
+// Hosts the *real* abasic-web/ts/main.ts (type annotations removed by a small set of generic
+// rewriting rules; the result must parse) in a node `vm` context.
 // Every call the page makes on the JsInterpreter object is forwarded, synchronously, as a
 // JSON line on stdout to the Rust harness, which executes it on the real adapter and
 // answers on stdin. The harness also sends the page events (new / submit / break / tick).
@@ -10,34 +10,31 @@ const vm = require("vm");
 const mainTsPath = process.argv[2];
 let src = fs.readFileSync(mainTsPath, "utf8");
 
-const rewrites = [
-  [/import \{\s*default as wasm,\s*JsInterpreter,\s*JsInterpreterState,\s*JsInterpreterOutputType,\s*\} from "\.\.\/pkg\/abasic_web\.js";/,
-    "const { default: wasm, JsInterpreter, JsInterpreterState, JsInterpreterOutputType } = __pkg;"],
-  ['import * as ui from "./ui.js";', "const ui = __ui;"],
-  ['import { unreachable } from "./util.js";', "const unreachable = __unreachable;"],
-  ["constructor(private readonly impl: JsInterpreter) {", "constructor(impl) { this.impl = impl;"],
-  ["loadAndRunSourceCode(sourceCode: string) {", "loadAndRunSourceCode(sourceCode) {"],
-  ["canProcessUserInput(): boolean {", "canProcessUserInput() {"],
-  ["canBreak(): boolean {", "canBreak() {"],
-  ["submitUserInput(input: string) {", "submitUserInput(input) {"],
-  ["private showOutput() {", "showOutput() {"],
-  ["private handleCurrentState = () => {", "handleCurrentState = () => {"],
-  ["function normalizeProgramPath(path: string | null): string | null {", "function normalizeProgramPath(path) {"],
-  ["const interpreter = new Interpreter(JsInterpreter.new());", "const interpreter = new Interpreter(JsInterpreter.new()); globalThis.__interp = interpreter;"],
-];
-for (const [from, to] of rewrites) {
-  let count;
-  if (from instanceof RegExp) {
-    count = (src.match(new RegExp(from.source, "g")) || []).length;
-    src = src.replace(from, to);
-  } else {
-    count = src.split(from).length - 1;
-    src = src.replace(from, to);
-  }
-  if (count !== 1) {
-    process.stdout.write(JSON.stringify({ fatal: "type-stripping rewrite did not apply exactly once: " + String(from) }) + "\n");
-    process.exit(3);
-  }
+// Type stripping: generic rules for the small TypeScript subset main.ts uses (imports,
+// constructor parameter properties, member modifiers, parameter and return types on signature
+// lines). The result must parse as JavaScript, otherwise the run is a machinery failure.
+function strip(src) {
+  src = src.replace(/import\s*\{([^}]*)\}\s*from\s*"\.\.\/pkg\/abasic_web\.js";/, (m, names) =>
+    "const {" + names.replace(/default\s+as\s+wasm/, "default: wasm") + "} = __pkg;");
+  src = src.replace(/import \* as ui from "\.\/ui\.js";/, "const ui = __ui;");
+  src = src.replace(/import \{ unreachable \} from "\.\/util\.js";/, "const unreachable = __unreachable;");
+  src = src.replace(/constructor\(((?:\s*(?:private|public|protected|readonly)\s+)+)([\w$]+)\s*:\s*[\w.<>\[\]| ]+\)\s*\{/g,
+    "constructor($2) { this.$2 = $2;");
+  src = src.replace(/^(\s*)(?:(?:private|public|protected|readonly)\s+)+/gm, "$1");
+  src = src.split("\n").map((line) => {
+    const m = line.match(/^(\s*(?:async\s+)?(?:function\s+)?[\w$.]+\s*(?:=\s*(?:async\s*)?)?)\(([^()]*)\)(\s*:\s*[^={]+?)?(\s*(?:=>)?\s*\{\s*)$/);
+    if (!m) return line;
+    const params = m[2].replace(/([\w$]+)\s*\??\s*:\s*[^,]+/g, "$1");
+    return m[1] + "(" + params + ")" + m[4];
+  }).join("\n");
+  // expose the page object (its isFullyInteractive flag is part of the explorer's state key)
+  src = src.replace(/const interpreter = new Interpreter\(([^;]*)\);/, "const interpreter = new Interpreter($1); globalThis.__interp = interpreter;");
+  return src;
+}
+src = strip(src);
+if (/^\s*import\s/m.test(src)) {
+  process.stdout.write(JSON.stringify({ fatal: "an import statement of main.ts was not recognised by the type stripper" }) + "\n");
+  process.exit(3);
 }
 let script;
 try {
